@@ -26,7 +26,7 @@ type Webhook struct {
 	lis  *simListener
 	recv []hookDelivery
 	// mode decides the answer for the next request: 200/201/202 ok, 500/503
-	// failure, -1 close without answering, -2 never answer (client times out)
+	// failure, -1 close without answering, -2 never answer (client times out), -3 headers then a stalled body
 	mode  func(body string) int
 	conns int
 	quiet bool
@@ -84,6 +84,10 @@ func (wh *Webhook) accept(e *connEnd) {
 				return
 			case st == -2:
 				// never answer
+			case st == -3:
+				// answer 200 with headers, then stall in the middle of the body: for the sender this
+				// request has not succeeded (it never sees the end of the response)
+				e.Write([]byte("HTTP/1.1 200 OK\r\nContent-Length: 64\r\nConnection: keep-alive\r\n\r\n{\"partial\":"))
 			default:
 				text := map[int]string{200: "OK", 201: "Created", 202: "Accepted", 500: "Internal Server Error", 503: "Service Unavailable"}[st]
 				e.Write([]byte(fmt.Sprintf("HTTP/1.1 %d %s\r\nContent-Length: 0\r\nConnection: keep-alive\r\n\r\n", st, text)))
